@@ -72,7 +72,15 @@ pub fn may_have_internal_overlap(shape: impl SizeArray, strides: impl SizeArray)
         if stride <= max_offset {
             return true;
         }
-        max_offset += (shape - 1) * stride;
+        // If the maximum offset is not representable, offsets computed from
+        // this layout wrap around and may collide.
+        let Some(dim_max_offset) = (shape - 1).checked_mul(stride) else {
+            return true;
+        };
+        let Some(new_max_offset) = max_offset.checked_add(dim_max_offset) else {
+            return true;
+        };
+        max_offset = new_max_offset;
     }
     false
 }
